@@ -92,7 +92,7 @@ theorem finv_init (k : Nat) : FInv (finit P k) := by
     rw [hm]
     simp [finit, m0, tokensIn, Market.init]
   · simp [finit]
-  · simp [finit, List.nodup_range]
+  · simp only [finit]; exact (List.reverse_perm _).nodup_iff.2 List.nodup_range
   · intro t ht
     rw [hm]
     simpa [finit, m0] using ht
